@@ -1,6 +1,6 @@
 (* C20 — Results do not depend on unspecified choices of the array backend: every theorem below (and every theorem of C01-C08, C12-C18 stated with a BackendOK premise) quantifies over ALL contract-conforming back-ends.
    Property theorems only: each statement is spelled out and closed by [exact] of a lemma proved in Proofs/. *)
-From OHG Require Import Spec.GraphSpec Proofs.Assemble Proofs.BackendInst.
+From OHG Require Import Spec.GraphSpec Proofs.Assemble Proofs.BackendInst Proofs.Adv2Inst.
 
 Theorem C20_vec_conforms : BackendOK VecBackend.
 Proof. exact (@BackendInst.VecBackend_ok). Qed.
@@ -81,6 +81,9 @@ Theorem C20_convex : forall B1 B2 : Backend,
        arrow_is_convex_subgraph B1 m = arrow_is_convex_subgraph B2 m.
 Proof. exact (@Assemble.C20_convex). Qed.
 
+Theorem C20_adv2_conforms : BackendOK Adv2Backend.
+Proof. exact (@Adv2Backend_ok). Qed.
+
 Print Assumptions C20_vec_conforms.
 Print Assumptions C20_adv_conforms.
 Print Assumptions C20_compose.
@@ -91,3 +94,4 @@ Print Assumptions C20_eval_refusal.
 Print Assumptions C20_acyclic.
 Print Assumptions C20_acyclic_ohg.
 Print Assumptions C20_convex.
+Print Assumptions C20_adv2_conforms.
